@@ -236,6 +236,7 @@ func genRegionsPrune(w *world, t *trace.W, r *rng.R, maxOps int, bg *int) {
 	}
 	ops := r.Range(4, maxOps)
 	stopped := false
+	sel := true
 	for k := 0; k < ops; k++ {
 		c := r.Pick(40, 12, 10, 8, 4, 12, 8, 6)
 		if stopped && c != 5 {
@@ -249,6 +250,28 @@ func genRegionsPrune(w *world, t *trace.W, r *rng.R, maxOps int, bg *int) {
 		case 1:
 			w.do(t, fmt.Sprintf("delregion %d", r.Range(1, 14)))
 		case 2:
+			if rs && r.Bool(1, 5) {
+				// the selector moves to the other backend; the region storage keeps its pending batch, Flush and
+				// Close still write it out
+				sel = !sel
+				if sel {
+					w.do(t, "switch region")
+				} else {
+					w.do(t, "switch default")
+				}
+				if r.Bool(2, 3) {
+					w.do(t, "flush")
+					if !sel && r.Bool(1, 2) {
+						// back at once: what was pending when the selector moved must have been written by that flush
+						sel = true
+						w.do(t, "switch region")
+					}
+				}
+				if r.Bool(1, 2) {
+					w.do(t, "loadregions plain")
+				}
+				continue
+			}
 			if rs && r.Bool(1, 4) {
 				// the leveldb write of this flush (or of the save that fills the batch) fails; nothing may be lost
 				if r.Bool(1, 2) {
@@ -286,6 +309,11 @@ func genRegionsPrune(w *world, t *trace.W, r *rng.R, maxOps int, bg *int) {
 	}
 	if stopped {
 		w.do(t, "loadregions plain")
+	}
+	if !sel {
+		w.do(t, "flush")
+		w.do(t, "loadregions plain")
+		w.do(t, "switch region")
 	}
 	w.do(t, "flush")
 	w.do(t, "loadregions prune")
@@ -446,10 +474,38 @@ func genFault(w *world, t *trace.W, r *rng.R, maxOps int) {
 	w.do(t, "loadregions plain")
 }
 
+// genFat: regions with long keys: a page of a range scan is several MB large although it has far fewer than
+// rangeLimit items (a backend that cuts pages by size must not end the load)
+func genFat(w *world, t *trace.W, r *rng.R, big *int) {
+	w.do(t, "reset")
+	w.do(t, "open "+[]string{"rs", "rs", "mem"}[r.Intn(3)])
+	n, pad := 600, 8192
+	if r.Bool(1, 2) {
+		n, pad = 300, 16384
+	}
+	if *big > 1 && r.Bool(1, 2) {
+		n, pad = 3000, 2048
+		*big--
+	}
+	w.do(t, fmt.Sprintf("pad %d", pad))
+	w.do(t, fmt.Sprintf("regions %d %d %d %d", n, r.Range(1, 1000), r.Range(1, 3), r.Range(1, 9)))
+	w.do(t, "flush")
+	w.do(t, "loadregions plain")
+	if r.Bool(1, 2) {
+		w.do(t, fmt.Sprintf("region %d:%d:%d:1:2", r.Range(1, 1000), 0, 40))
+		w.do(t, "flush")
+	}
+	w.do(t, "loadregions prune")
+	w.do(t, "close")
+	w.do(t, "loadregions plain")
+}
+
 func gen(w *world, t *trace.W, r *rng.R, maxOps int, big, bg *int) {
-	switch r.Pick(27, 21, 30, 11, 6, 5) {
+	switch r.Pick(27, 21, 30, 11, 6, 5, 2) {
 	case 5:
 		genFault(w, t, r, maxOps)
+	case 6:
+		genFat(w, t, r, big)
 	case 0:
 		genStores(w, t, r, maxOps, big)
 	case 1:
